@@ -117,13 +117,13 @@ def lemma_primitive_is_nullable(I):
     f = _field(I, PrimitiveField, **kw)
     got = f.is_nullable(v)
     if prim.value in NUMERIC:
-        I.check("numeric_primitives_are_never_nullable", I.not_(got) if not isinstance(got, bool) else (got is False))
+        I.check("numeric_primitives_are_never_nullable", I.not_(got) if type(got) is not bool else (got is False))
         return
     if prim in (Primitive.bool_, Primitive.error_code):
         # the wire format has no null bool / error code: a definition declaring one is not well-formed (skipped);
         # otherwise such a field is never optional - in particular not because it is tagged and ignorable
         if "nullableVersions" not in kw:
-            I.check("bool_and_error_code_are_never_nullable", I.not_(got) if not isinstance(got, bool) else (got is False))
+            I.check("bool_and_error_code_are_never_nullable", I.not_(got) if type(got) is not bool else (got is False))
         return
     spec = I.any([nspec(v), I.all([tspec(v), ignorable, default is None]), prim is Primitive.datetime_i64 and default == "-1"])
     I.check("nullable_iff_definition_says_so_for_this_version", I.iff(got, spec))
